@@ -285,7 +285,8 @@ def draw_op(draw, model, counter):
                 for pn in picks:
                     if nm[pn]["rail"]:
                         refs = [r_ for r_ in refs if r_ not in (pn, nm[pn]["rail"])]
-                        refs += [pn, nm[pn]["rail"]]
+                        # (the alias pair in front, so that other inputs follow it)
+                        refs = [pn, nm[pn]["rail"]] + refs
                         cls.append("alias_parents")
                         break
             if draw(st.integers(0, 14)) == 6:
